@@ -397,6 +397,43 @@ func (g *Rig) Probe() error {
 	}
 }
 
+// Restart stops serving, registers more scripted interfaces on the SAME service object and serves it again on a
+// fresh unix address (Bind + DoListen).
+func (g *Rig) Restart(more []string) error {
+	if _, ok := g.Stop(); !ok {
+		return fmt.Errorf("serving call did not return after Shutdown")
+	}
+	for _, n := range more {
+		desc := defaultDesc(n)
+		if err := g.Svc.RegisterInterface(&ScriptDisp{Name: n, Desc: desc, Log: g.Log}); err != nil {
+			return fmt.Errorf("register %q after shutdown: %v", n, err)
+		}
+		g.Reg.Names = append(g.Reg.Names, n)
+		g.Reg.Descs[n] = desc
+		g.Reg.Scripted[n] = true
+	}
+	n := atomic.AddInt64(&rigCounter, 1)
+	g.path = filepath.Join(g.r.WorkDir, fmt.Sprintf("s%d", n))
+	g.Addr, g.Net, g.Dial = "unix:"+g.path, "unix", g.path
+	g.ctx, g.cancel = context.WithCancel(context.Background())
+	g.done = make(chan error, 1)
+	if err := g.Svc.Bind(g.ctx, g.Addr); err != nil {
+		return fmt.Errorf("re-bind %s: %v", g.Addr, err)
+	}
+	go func() { g.done <- g.Svc.DoListen(g.ctx, 0) }()
+	deadline := time.Now().Add(20 * time.Second)
+	for {
+		err := g.Probe()
+		if err == nil {
+			return nil
+		}
+		if _, wrong := err.(*probeMismatch); wrong || time.Now().After(deadline) {
+			return err
+		}
+		time.Sleep(500 * time.Microsecond)
+	}
+}
+
 // Stop shuts the service down and waits for the serving call to return.
 // ok is false if it did not return within the bound.
 func (g *Rig) Stop() (err error, ok bool) {
